@@ -114,7 +114,7 @@ pub const FEATURES: &[(&str, &str)] = &[
     ("heredoc-two", "vcat <<A <<B\na\nA\nb\nB"),
     ("heredoc-then-cmd", "vcat <<EOF; ok 2\nbody\nEOF"),
     ("procsub-in", "vcat <(ok 1)"),
-    ("procsub-out", "ok 1 > >(vcat)"),
+    ("procsub-out", "ok 1 > >(vcat >ps.txt)"),
     ("cmdsub", "echo $(ok 1) `ok 2`"),
     ("pipeline", "ok 1 | vcat"),
     ("pipeline-stderr", "ok 1 |& vcat"),
@@ -122,6 +122,9 @@ pub const FEATURES: &[(&str, &str)] = &[
     ("timed", "time ok 1"),
     ("timed-p", "time -p ok 1"),
     ("negated-timed", "! time ko 1"),
+    ("timed-negated", "time ! ko 1"),
+    ("timed-p-negated", "time -p ! ko 1"),
+    ("timed-negated-pipe", "time ! ko 1 | vcat"),
     ("background", "ok 1 & wait"),
     ("and-or", "ok 1 && ko 2 || ok 3"),
     ("arith-cmd", "(( x = 1 + 2 )); echo $x"),
@@ -282,7 +285,20 @@ pub fn run(tier: Tier, _replay: Option<Value>) -> ! {
         if v["ast_equal"].as_bool() != Some(true) {
             fail("ast-equal", "same AST (locations erased)".into(), format!("{}\n-- {}", p1, v["ast_diff"].as_str().unwrap_or("")), &mut rep);
         }
-        if v["trace_orig"] != v["trace_print"] {
+        // commands that run concurrently (`&`, `>( )`, coproc) may interleave their output differently in
+        // two runs of the very same function: such traces are compared as multisets of lines
+        let concurrent = bodies[i].1.iter().any(|t| matches!(t.as_str(), "feat:background" | "feat:amp-list" | "feat:procsub-out" | "feat:procsub-in" | "feat:coproc" | "feat:coproc-named"));
+        let norm = |x: &Value| -> String {
+            let t = x.as_str().unwrap_or("");
+            if concurrent {
+                let mut l: Vec<&str> = t.lines().collect();
+                l.sort();
+                l.join("\n")
+            } else {
+                t.to_string()
+            }
+        };
+        if norm(&v["trace_orig"]) != norm(&v["trace_print"]) {
             fail("same-behaviour", v["trace_orig"].as_str().unwrap_or("").to_string(), format!("{}\n-- printed as:\n{}", v["trace_print"].as_str().unwrap_or(""), p1), &mut rep);
         }
         if v["exported"].is_null() {
